@@ -55,10 +55,17 @@ for name, path, quiet in entries():
             if alarms:
                 bad.append(name)
         else:
-            prop = name[:3]
-            n, found = check(prop)
-            res[name] = ("caught by %s quick: %d violations (%d with a failing input)" % (prop, n, found)) if n else "MISSED by %s quick" % prop
-            if not n:
+            meta = json.load(open(os.path.join(path, "meta.json")))
+            props = meta.get("property", name[:3])
+            props = [props] if isinstance(props, str) else list(props)
+            props = [p for p in props if p in PROPS] or [name[:3]]
+            hits = []
+            for prop in props:
+                n, found = check(prop)
+                if n:
+                    hits.append("%s quick: %d violations (%d with a failing input)" % (prop, n, found))
+            res[name] = ("caught by " + "; ".join(hits)) if hits else "MISSED by %s quick" % props
+            if not hits:
                 bad.append(name)
     finally:
         subprocess.run(["git", "-C", REPO, "checkout", "--", "."])
